@@ -845,7 +845,390 @@ def check_c15(tier, seed):
         "hash coherence is checked as Eq => equal hashes"]}
 
 
-CHECKS = {"C20": check_c20, "C19": check_c19, "C17": check_c17, "C18": check_c18, "C15": check_c15}
+# ---------------------------------------------------------------------------
+# C16 -- bulk operations
+
+_AT = None
+
+
+def validate_bulk(batch, timeout):
+    """Run spec/TraceBulk.tla.  Returns (fails, rejected, stats): rejected = [(tid, position reached)]."""
+    import re
+    d = tlc.scratch("bulk")
+    path = os.path.join(d, "batch.json")
+    with open(path, "w") as f:
+        json.dump(batch, f, separators=(",", ":"))
+    try:
+        out, wall, rc = tlc.run_tlc("TraceBulk.tla", "TraceBulk.cfg", timeout=timeout, env={"TRACE_FILE": path}, heap="12g")
+    finally:
+        shutil.rmtree(d, ignore_errors=True)
+    err = tlc.tlc_error(out)
+    if err or tlc.violated_invariant(out):
+        raise MachineryError("bulk trace validator did not run to completion: " + (err or out[-1500:]))
+    fails = [(int(m.group(1)), int(m.group(2)), tuple(x.strip().strip('"') for x in m.group(3).split(",")))
+             for m in tlc._FAIL.finditer(out)]
+    reached = {}
+    for m in re.finditer(r'<<"AT", (\d+), (\d+)>>', out):
+        t, l = int(m.group(1)), int(m.group(2))
+        reached[t] = max(reached.get(t, 0), l)
+    rejected = []
+    for t, tr in enumerate(batch["traces"], start=1):
+        if reached.get(t, 0) != len(tr["events"]) + 1:
+            rejected.append((t, reached.get(t, 0)))
+    st = tlc.parse_stats(out) or {}
+    st.update({"wall_s": round(wall, 2), "traces": len(batch["traces"])})
+    return fails, rejected, st
+
+
+def check_c16(tier, seed):
+    import csv
+    t0 = time.time()
+    quick = tier == "quick"
+    rng = random.Random(seed + 16)
+    invs = ["Inv_Atomic", "Inv_Done", "Inv_FailPos"]
+    model, states, cex = run_model("mc/MC_Bulk.tla", "MSpec", {"FoldMap": "<- Fold", "MaxRows": 2 if quick else 3}, invs,
+                                   900 if quick else 3400, want=("pc", "job"), dump=quick)
+    # vacuity: every fault position must be reachable in the model
+    reach = []
+    for k in (1, 2) if quick else (1, 2, 3):
+        m2, _, _ = run_model("mc/MC_Bulk.tla", "MSpec", {"FoldMap": "<- Fold", "MaxRows": 2 if quick else 3}, [f"Never{k}"], 900, dump=False)
+        if not m2["violated"]:
+            raise MachineryError(f"model vacuity: a failure at row {k} is not reachable in MC_Bulk")
+        reach.append(k)
+    if not quick:
+        _, states, _ = run_model("mc/MC_Bulk.tla", "MSpec", {"FoldMap": "<- Fold", "MaxRows": 2}, invs, 900, want=("pc", "job"))
+    import impl
+    import curies
+    import pandas as pd
+
+    class Rec(curies.Converter):
+        _sink = None
+        _depth = 0
+
+    def _wrap(name):
+        base = getattr(curies.Converter, name)
+
+        def method(self, x, **kw):
+            top = self._depth == 0 and self._sink is not None
+            self._depth += 1
+            out = None
+            try:
+                try:
+                    res = base(self, x, **kw)
+                    out = ("val", res) if res is not None else ("none",)
+                    return res
+                except Exception as e:  # noqa: BLE001
+                    out = ("raise", impl.fam(e))
+                    raise
+            finally:
+                self._depth -= 1
+                if top:
+                    self._sink(name, x, out)
+        return method
+    for nm in ("compress", "expand", "compress_or_standardize", "expand_or_standardize"):
+        setattr(Rec, nm, _wrap(nm))
+
+    I = impl.Interner()
+    convs, conv_objs, traces, metas = [], [], [], []
+
+    def add_conv(recs, delim=":"):
+        c = Rec([impl.mk_record(r) for r in recs], delimiter=delim)
+        convs.append(impl.proj_conv(I, c))
+        conv_objs.append(c)
+        return len(convs)
+
+    tdir = tlc.scratch("bulkfiles")
+
+    def enc_out(o):
+        if o is None:
+            return ["missing"]
+        if o[0] == "val":
+            return ["val", I(o[1])] if isinstance(o[1], str) else ["weird"]
+        if o[0] == "raise":
+            return ["raise", o[1]]
+        return ["none"]
+
+    def file_op(ci, kind, amb, s, p, header, col, table, sep):
+        c = conv_objs[ci - 1]
+        path = os.path.join(tdir, f"f{len(traces)}.tsv")
+        with open(path, "w", newline="") as fh:
+            csv.writer(fh, delimiter=sep or "\t").writerows(table)
+        with open(path, newline="") as fh:       # the table as the csv module reads it back (e.g. a lone empty cell is an empty row)
+            table = list(csv.reader(fh, delimiter=sep or "\t"))
+        bytes0 = open(path, "rb").read()
+        events = [{"e": "begin", "conv": ci, "kind": kind, "amb": amb, "s": s, "p": p, "header": header, "col": col + 1,
+                   "table0": [[I(x) for x in row] for row in table]}]
+        counter = [0]
+
+        def sink(name, x, out):
+            counter[0] += 1
+            same = open(path, "rb").read() == bytes0
+            events.append({"e": "row", "i": counter[0], "m": name, "x": I(x), "out": enc_out(out), "disk_same": same})
+        c._sink = sink
+        try:
+            fn = c.file_compress if kind == "compress" else c.file_expand
+            try:
+                fn(path, col, sep=sep, header=header, strict=s, passthrough=p, ambiguous=amb)
+                out = ["ok"]
+            except Exception as e:  # noqa: BLE001
+                out = ["raise", impl.fam(e), type(e).__name__]
+        finally:
+            c._sink = None
+        bytes1 = open(path, "rb").read()
+        with open(path, newline="") as fh:
+            table1 = list(csv.reader(fh, delimiter=sep or "\t"))
+        events.append({"e": "end", "out": out, "table1": [[I(x) for x in row] for row in table1], "bytes_same": bytes1 == bytes0})
+        os.remove(path)
+        traces.append({"events": events, "pd": []})
+        metas.append({"op": "file_" + kind, "ambiguous": amb, "strict": s, "passthrough": p, "header": header, "column": col, "sep": sep,
+                      "table": table, "records": [[r.prefix, r.uri_prefix, r.prefix_synonyms, r.uri_prefix_synonyms] for r in c.records],
+                      "delimiter": c.delimiter, "out": out})
+
+    def pd_op(ci, kind, amb, s, p, column_values, target):
+        c = conv_objs[ci - 1]
+        df = pd.DataFrame({"c0": list(column_values), "other": [f"o{k}" for k in range(len(column_values))]})
+        before = df.copy(deep=True)
+        fn = getattr(c, "pd_" + kind)
+        kw = {"strict": s, "passthrough": p}
+        if kind in ("compress", "expand"):
+            kw["ambiguous"] = amb
+        try:
+            if kind in ("compress", "expand"):
+                fn(df, "c0", target_column=target, **kw)
+            else:
+                fn(df, column="c0", target_column=target, **kw)
+            out = ["ok"]
+        except Exception as e:  # noqa: BLE001
+            out = ["raise", impl.fam(e), type(e).__name__]
+        call = {"conv": ci, "kind": kind, "amb": bool(amb), "s": s, "p": p, "col": [I(x) for x in column_values], "out": out,
+                "unchanged": bool(df.equals(before)), "result": [], "others_same": True}
+        if out[0] == "ok":
+            tc = target or "c0"
+            res = []
+            for v in df[tc].tolist():
+                res.append(["none"] if v is None or (isinstance(v, float) and v != v) or pd.isna(v) else (["val", I(v)] if isinstance(v, str) else ["weird"]))
+            call["result"] = res
+            keep = [col for col in before.columns if col != tc]
+            call["others_same"] = bool(df[keep].equals(before[keep])) and list(df.index) == list(before.index)
+        traces[-1]["pd"].append(call)
+        metas[-1].setdefault("pd", []).append({"op": "pd_" + kind, "ambiguous": amb, "strict": s, "passthrough": p, "target": target,
+                                              "column": list(column_values), "out": out})
+
+    cm = {1: "go", 2: "GO", 3: "http://obo.org/", 58: ":"}
+    done = [s for s in states if s.get("pc") in ("done", "failed")]
+    if cex:
+        done += [s for s in cex if s.get("job")]
+    rng.shuffle(done)
+    base_ci = None
+    for s_ in done[: (500 if quick else 6000)]:
+        job = s_["job"]
+        if base_ci is None:
+            base_ci = add_conv([{"p": _dconc(r["p"], cm), "u": _dconc(r["u"], cm), "ps": [_dconc(x, cm) for x in r["ps"]],
+                                 "us": [_dconc(x, cm) for x in r["us"]], "pat": None} for r in job["c"]["recs"]])
+        table = [[_dconc(x, cm) for x in row] for row in (list(job["header"]) + list(job["rows"]))]
+        kind = "compress" if job["meth"].startswith("compress") else "expand"
+        amb = job["meth"].endswith("standardize")
+        md = job["md"]
+        file_op(base_ci, kind, amb, md["s"], md["p"], bool(job["header"]), job["col"] - 1, table, None)
+        colvals = [row[job["col"] - 1] for row in table if len(row) >= job["col"]]
+        if colvals:
+            pd_op(base_ci, kind, amb, md["s"], md["p"], colvals, rng.choice([None, "new"]))
+    n_model = len(traces)
+    # random tables beyond the bounds
+    for _ in range(60 if quick else 900):
+        delim = rng.choice([":", ":", "/", "::"])
+        recs = [{"p": "GO", "u": "http://purl.obolibrary.org/obo/GO_", "ps": ["go"], "us": ["https://identifiers.org/GO:"], "pat": None},
+                {"p": "CHEBI", "u": "http://purl.obolibrary.org/obo/CHEBI_", "ps": [], "us": [], "pat": None},
+                {"p": "OBO", "u": "http://purl.obolibrary.org/obo/", "ps": [], "us": [], "pat": None}]
+        ci = add_conv(recs, delim)
+        ncols = rng.randrange(1, 4)
+        col = rng.randrange(ncols)
+        sep = rng.choice([None, None, ",", ";", "|"])
+        pool = ["http://purl.obolibrary.org/obo/GO_1", "https://identifiers.org/GO:2", "http://purl.obolibrary.org/obo/x", "http://nope.org/1",
+                f"GO{delim}1", f"go{delim}2", f"CHEBI{delim}x y", f"nope{delim}1", "nodelimiter", "", "a,b", "semi;colon", 'q"uote', "é ü"]
+        table = []
+        for _ in range(rng.randrange(1, 7)):
+            table.append([rng.choice(pool) for _ in range(ncols)])
+        header = rng.random() < 0.6
+        if header:
+            table.insert(0, [f"h{k}" for k in range(ncols)])
+        if rng.random() < 0.15 and len(table) > 1:
+            table[rng.randrange(1 if header else 0, len(table))] = ["short"] if col > 0 else table[-1]
+        kind = rng.choice(["compress", "expand"])
+        amb, s, p = rng.random() < 0.4, rng.random() < 0.4, rng.random() < 0.4
+        file_op(ci, kind, amb, s, p, header, col, table, sep)
+        colvals = [rng.choice(pool) for _ in range(rng.randrange(1, 6))]
+        for k2 in (kind, rng.choice(["standardize_prefix", "standardize_curie", "standardize_uri"])):
+            vals = colvals if k2 in ("compress", "expand") else colvals + ["GO", "go", "nope"]
+            pd_op(ci, k2, amb, rng.random() < 0.3, rng.random() < 0.5, vals, rng.choice([None, "new"]))
+    shutil.rmtree(tdir, ignore_errors=True)
+    batch = {"strs": I.table(), "convs": convs, "traces": traces}
+    fails, rejected, stv = validate_bulk(batch, 1200 if quick else 3400)
+    lines, violations = [], 0
+    bad = {}
+    for t, l, clause in fails:
+        bad.setdefault(t, []).append((l, clause))
+    for t, l in rejected:
+        bad.setdefault(t, []).append((l, ("bulk.step_not_allowed_by_machine",)))
+    for t in sorted(bad):
+        violations += 1
+        if violations <= 10:
+            l, clause = bad[t][0]
+            path = replay_file("C16", "bulk", clause, dict(metas[t - 1], event=l, all_clauses=sorted({"/".join(c) for _, c in bad[t]})))
+            lines.append(f"VIOLATION property=C16 replay={path}   # clauses {sorted({'/'.join(c) for _, c in bad[t]})}")
+    if model["violated"] and not violations:
+        raise MachineryError("TLC reports a C16 invariant violated on the model but the implementation conforms: the specification is wrong")
+    n_raise = sum(1 for m in metas if m["out"][0] == "raise")
+    n_rows = sum(1 for tr in traces for e in tr["events"] if e["e"] == "row")
+    n_pd = sum(len(tr["pd"]) for tr in traces)
+    cov = {"states": model["distinct"], "transitions": model["generated"], "traces_validated_against_impl": len(traces),
+           "samples": [metas[0], metas[-1]], "evaluations": n_rows + n_pd, "distinct_nontrivial": n_raise,
+           "rule": "evaluations = recorded cell conversions of file operations (each with the file's bytes compared at that moment) plus data-frame operations; distinct_nontrivial = file operations that RAISED (atomicity clause exercised); the rest exercise the element-wise clause",
+           "exhaustive": True, "models": [model], "fault_positions_reachable_in_model": reach, "traces_from_model": n_model,
+           "file_ops_raised": n_raise, "pd_ops": n_pd, "trace_validation": stv}
+    return {"lines": lines, "violations": violations, "coverage": cov, "wall": time.time() - t0, "assumptions": ASSUME + [
+        "cells contain no control characters (the csv dialect is the module default)",
+        "the recording subclass of Converter only observes: it calls the original method and logs (input, outcome, file bytes unchanged?) at top-level calls",
+        "pandas .map / DataFrame.equals as the observation of data frames"]}
+
+
+# ---------------------------------------------------------------------------
+# C14 -- written contexts read back to the same converter
+
+HAZ_EPM = ["a", "B", "é", "ß", "\U0001d4b3", "‏", " ", "\t", "\n", "\\", '"', "'", "<", ">", "{", "}", "/", ":", "#", "@", ",", "\x00", "\x7f", " "]
+HAZ_JSONLD = ["a", "B", "é", "\U0001d4b3", " ", "\\", '"', "'", "<", "/", ":", "#", ",", "\t", "@"]
+HAZ_TTL = ["a", "B", "é", "ß", "\U0001d4b3", " ", "\\", "'", "/", ":", "#", "@", ",", "{", "}", "|", "^", "`", "?", "=", "&", "%", ";", "*", "$", " "]
+PATTERNS = [r"^\d{7}$", r"^[A-Z]+\\\d+$", r"\w+\.\d", r"^CHEBI:\d+$", "a\\b", "\\\\", r"^(\d|\w)'+$"]
+
+
+def _hz(rng, alpha, n=(1, 5), must=""):
+    k = rng.randrange(*n)
+    s = "".join(rng.choice(alpha) for _ in range(k))
+    return must + s
+
+
+def check_c14(tier, seed):
+    import csv
+    t0 = time.time()
+    quick = tier == "quick"
+    rng = random.Random(seed + 14)
+    model, states, cex = run_model("mc/MC_IO.tla", "ISpec", {"FoldMap": "<- Fold", "DefaultDelim": "<- MCDefaultDelim", "MaxRecs": 2},
+                                   ["Inv_C14"], 900, want=("conv", "op"), dump=True)
+    import impl
+    import curies
+    calls = WebCalls({"C14"})
+    I = calls.I
+    tdir = tlc.scratch("io")
+
+    def roundtrip(ci, fmt, syn, expand):
+        c = calls.conv_objs[ci - 1]
+        path = os.path.join(tdir, f"f{len(calls.calls)}." + {"epm": "json", "jsonld": "json", "shacl": "ttl", "tsv": "tsv"}[fmt])
+        try:
+            if fmt == "epm":
+                curies.write_extended_prefix_map(c, path)
+                back = curies.load_extended_prefix_map(path, delimiter=c.delimiter)
+            elif fmt == "jsonld":
+                curies.write_jsonld_context(c, path, include_synonyms=syn, expand=expand)
+                back = curies.load_jsonld_context(path, strict=not syn)
+            elif fmt == "shacl":
+                curies.write_shacl(c, path, include_synonyms=syn)
+                back = curies.load_shacl(path, strict=not syn)
+            else:
+                curies.write_tsv(c, path)
+                with open(path, newline="") as fh:
+                    rows = list(csv.reader(fh, delimiter="\t"))
+                back = curies.load_prefix_map({r[0]: r[1] for r in rows[1:]})
+            out = ["ok", impl.proj_conv(I, back)]
+        except Exception as e:  # noqa: BLE001
+            out = impl.enc_exc(e)
+        finally:
+            if os.path.exists(path):
+                os.remove(path)
+        calls.add({"f": "roundtrip", "fmt": fmt, "syn": bool(syn), "expand": bool(expand), "conv": ci, "back": out},
+                  {"f": "roundtrip", "fmt": fmt, "include_synonyms": bool(syn), "expand": bool(expand),
+                   "records": [[r.prefix, r.uri_prefix, r.prefix_synonyms, r.uri_prefix_synonyms, r.pattern] for r in c.records],
+                   "back": "ok" if out[0] == "ok" else out[:3]})
+
+    # behaviours of the model: hazard classes -> representatives allowed by each format's quantifier
+    reps = {"epm": [{1: "a", 2: "\\", 3: "é", 4: " "}, {1: "x\n", 2: '"', 3: "\U0001d4b3", 4: "\t"}],
+            "jsonld": [{1: "a", 2: "\\", 3: "é", 4: " "}, {1: "b", 2: '"', 3: "ü", 4: "\t"}],
+            "shacl": [{1: "a", 2: "\\", 3: "é", 4: " "}, {1: "b'", 2: "\\", 3: "\U0001d4b3", 4: " "}],
+            "tsv": [{1: "a", 2: "\\", 3: "é", 4: " "}, {1: "b,", 2: "\\", 3: "ß", 4: "'"}]}
+    done = [s_ for s_ in states if s_.get("op")]
+    if cex:
+        done += [s_ for s_ in cex if s_.get("op")]
+    rng.shuffle(done)
+    cache = {}
+    for k, s_ in enumerate(done[: (700 if quick else 8000)]):
+        op = s_["op"]
+        cm = dict(reps[op["fmt"]][k % 2])
+        cm[58] = ":"
+        key = (world_freeze(s_["conv"]), op["fmt"], k % 2)
+        if key not in cache:
+            recs = [{"p": _dconc(r["p"], cm), "u": _dconc(r["u"], cm), "ps": sorted(_dconc(x, cm) for x in r["ps"]), "us": [],
+                     "pat": (_dconc(r["pat"][0], cm) if r["pat"] else None)} for r in s_["conv"]]
+            try:
+                cache[key] = calls.conv(recs, ":")
+            except Exception:  # noqa: BLE001  (two abstract strings may concretise to clashing ones)
+                cache[key] = None
+        if cache[key]:
+            roundtrip(cache[key], op["fmt"], op["syn"], op["expand"])
+    n_model = len(calls.calls)
+    # random converters over the hazard alphabets of each format's quantifier
+    for _ in range(120 if quick else 2500):
+        fmt = rng.choice(["epm", "jsonld", "shacl", "tsv"])
+        alpha = {"epm": HAZ_EPM, "jsonld": HAZ_JSONLD, "shacl": HAZ_TTL, "tsv": HAZ_TTL}[fmt]
+        recs, P, U = [], set(), set()
+        for _ in range(rng.randrange(1, 5)):
+            p = _hz(rng, alpha if fmt != "jsonld" else [a for a in alpha if a != "@"], must=("p" if fmt == "jsonld" else ""))
+            u = _hz(rng, alpha, (1, 8))
+            ps = sorted({_hz(rng, alpha if fmt != "jsonld" else [a for a in alpha if a != "@"], must=("s" if fmt == "jsonld" else "")) for _ in range(rng.randrange(0, 3))} - {p})
+            us = sorted({_hz(rng, alpha, (1, 8)) for _ in range(rng.randrange(0, 3))} - {u})
+            pat = rng.choice(PATTERNS + [None, None]) if fmt in ("epm", "shacl") else None
+            if fmt == "epm" and rng.random() < 0.3:
+                pat = _hz(rng, alpha, (1, 6))
+            ap, au = {p, *ps}, {u, *us}
+            if ap & P or au & U:
+                continue
+            P |= ap
+            U |= au
+            recs.append({"p": p, "u": u, "ps": ps, "us": us, "pat": pat})
+        if not recs:
+            continue
+        ci = calls.conv(recs, ":")
+        for syn in (False, True):
+            for expand in ((False, True) if fmt == "jsonld" else (False,)):
+                if fmt in ("epm", "tsv") and syn:
+                    continue
+                roundtrip(ci, fmt, syn, expand)
+    shutil.rmtree(tdir, ignore_errors=True)
+    batch, group = calls.batch(60)
+    fails, stv = tlc.validate_calls(batch, spec="TraceIO.tla", cfg="TraceIO.cfg", timeout=1200 if quick else 3400)
+    lines, violations, known_f, other = verdict("C14", "io", fails, calls, group, lambda c: {"C14"})
+    if model["violated"] and not violations:
+        raise MachineryError("TLC reports Inv_C14 violated on the model but the implementation conforms: the specification is wrong")
+    per = {}
+    for m in calls.meta:
+        per[m["fmt"]] = per.get(m["fmt"], 0) + 1
+    hazard = sum(1 for m in calls.meta if any(ch in json.dumps(m["records"], ensure_ascii=False) for ch in ("\\\\", "é", "\U0001d4b3")))
+    cov = {"states": model["distinct"], "transitions": model["generated"], "traces_validated_against_impl": len(calls.calls),
+           "samples": [calls.meta[0], calls.meta[-1]], "evaluations": len(calls.calls), "distinct_nontrivial": hazard,
+           "rule": "evaluations = write-then-read round trips through the real writers and readers; distinct_nontrivial = round trips whose converter contains a backslash or a non-ASCII character",
+           "exhaustive": True, "models": [model], "calls_from_model": n_model, "per_format": per, "call_validation": stv,
+           "other_clauses_failed": other, "known_findings": known_f,
+           "explanation": "the specification decides the round trip at the level of what a file denotes; byte-level escaping is explored by the hazard-alphabet sweep, not proved"}
+    return {"lines": lines, "violations": violations, "coverage": cov, "wall": time.time() - t0, "assumptions": ASSUME + [
+        "JSON, Turtle (rdflib) and csv parsers are the readers named by the property; UTF-8 locale",
+        "domains per format as in the property's quantifier: JSON-LD prefixes non-empty and not starting with '@'; SHACL/TSV strings without double quote, angle brackets and control characters; SHACL on non-empty converters; patterns are non-empty",
+        "synonym output is read back non-strictly (strict loading of it is documented as undefined)"]}
+
+
+def world_freeze(v):
+    import world
+    return world._freeze(v)
+
+
+CHECKS = {"C20": check_c20, "C19": check_c19, "C17": check_c17, "C18": check_c18, "C15": check_c15, "C16": check_c16, "C14": check_c14}
 
 
 def check(pid, tier, seed):
